@@ -100,8 +100,10 @@ DoPartialApply(P, S) == IF Len(S.regs) < 2 THEN Err(S) ELSE
 DoMakeRange(P, S, op) == IF Len(S.regs) < 2 THEN Err(S) ELSE
   LET l == S.regs[Len(S.regs) - 1]  r == Top(S.regs)
       inc(v) == NumOp1("Increment", v)
+      dec(v) == NumOp1("Decrement", v)
+      \* a range holds its first and its last number; the exclusive forms move an end inwards
       lo == IF op \in {"MakeStartExclusiveRange", "MakeExclusiveRange"} THEN inc(l) ELSE l
-      hi == IF op \in {"MakeEndExclusiveRange", "MakeExclusiveRange"} THEN r ELSE inc(r) IN
+      hi == IF op \in {"MakeEndExclusiveRange", "MakeExclusiveRange"} THEN dec(r) ELSE r IN
   Push([S EXCEPT !.regs = Pop2(S.regs)],
        IF ~(IsNum(l) /\ IsNum(r)) THEN U ELSE IF IsSkip(lo) \/ IsSkip(hi) \/ lo.t = "unit" \/ hi.t = "unit" THEN SKIP
        ELSE [t |-> "range", l |-> lo, r |-> hi])
